@@ -289,6 +289,12 @@ def check_no_mutation(chk, MX, tmp):
         style = rng.choice(["scene-dict", "add_aircraft"])
         if style == "scene-dict":
             sd.setdefault("scene", {})["aircraft"] = {name: {"file": ac, "state": st, "control_state": cs}}
+        if it % 2 == 0:
+            # options given as lists / nested dictionaries are the easiest to alias: user cluster points on a cosine grid
+            for w in ac["wings"].values():
+                if w["grid"].get("distribution", "cosine_cluster") == "cosine_cluster":
+                    w["grid"]["cluster_points"] = [0.3, 0.6]
+                    break
         snap = copy.deepcopy((sd, ac, st, cs))
         chk.case(dict(kind="no-mutation", style=style, it=it), nontrivial=True)
         rep = dict(kind="no-mutation", style=style, scene=snap[0], aircraft=snap[1], state=snap[2], controls=snap[3])
@@ -388,7 +394,14 @@ def check_exports(chk, MX, tmp):
         if symmetric:
             ac = gen.gen_aircraft(rng, None, max_wings=2, sides=("both",), N=rng.randint(3, 4), allow_fin=False)
             ac["CG"][1] = 0.0
-            cs = {}
+            # symmetric controls deflected: the exported flaps must be mirror images too (part-span surfaces included)
+            cs = {k: round(rng.uniform(4.0, 15.0) * rng.choice([-1, 1]), 1) for k, v in ac["controls"].items() if v.get("is_symmetric", True)}
+            for w in ac["wings"].values():
+                c_ = w.get("control_surface")
+                if c_ and rng.random() < 0.6:
+                    c_["root_span"], c_["tip_span"] = round(rng.uniform(0.35, 0.6), 2), 1.0
+                    if isinstance(c_.get("chord_fraction"), list):
+                        c_["chord_fraction"] = 0.25
         R = rng.choice([5, 6, 8, 9, 12])
         close_te = rng.random() < 0.7
         try:
